@@ -40,7 +40,10 @@ Qpn == /\ Ev.ev = "qpn"
             /\ Ev.largest = largest[Ev.dir][Ev.space]                \* largest so far, per space and direction
             \* (WHEN the code raises its `largest` -- at once, or only after the packet was authenticated as RFC 9000 A.3 words it -- is not the
             \*  property's subject: the value it USES for the next packet of the space is, and that is the line above at the next event)
-            /\ largest' = [largest EXCEPT ![Ev.dir][Ev.space] = IF Ev.full > Ev.largest THEN Ev.full ELSE Ev.largest]
+            \* a packet that no key opens (ground truth: `noise`) may or may not count: RFC 9000 A.3 speaks of the largest number "successfully
+            \* processed", the unchanged code counts every dissected packet -- either is a function of the input the properties allow
+            /\ \E counts \in (IF T.pkts[k].noise THEN BOOLEAN ELSE {TRUE}) :
+                 largest' = [largest EXCEPT ![Ev.dir][Ev.space] = IF counts /\ Ev.full > Ev.largest THEN Ev.full ELSE Ev.largest]
             /\ cur' = cur \cup {k}
        /\ UNCHANGED <<ecur, got, resets>>
 
